@@ -119,6 +119,26 @@ def redirect (prop : PropId) (arrayIndex priority : Option Int) : PropId × Opti
     | some p => (.priorityArray, some p)
   | p => (p, arrayIndex)
 
+/-- the checks `_Commando.WriteProperty` makes before anything is changed, in the
+    order of the code: which slot a write addresses, or how it is refused -/
+def target {V} (cfg : Cfg V) (prop : PropId) (value : Option V)
+    (arrayIndex priority : Option Int) : Except CErr Nat :=
+  match redirect prop arrayIndex priority with
+  | (.other, _) => .error .notModelled
+  | (.presentValue, _) => .error .notModelled      -- unreachable: redirect never returns it
+  | (.priorityArray, none) =>
+    -- "writing entire priorityArray": passed to Property.WriteProperty of a
+    -- property that is not mutable
+    .error .writeAccessDenied
+  | (.priorityArray, some i) =>
+    if i = 0 then .error .writeAccessDenied
+    else if i < 1 ∨ i > 16 then .error .invalidArrayIndex
+    else
+      -- "check the value before anything is changed" (a null needs no check)
+      match checkValue cfg value with
+      | some e => .error e
+      | none => .ok i.toNat
+
 /-- `_Commando.WriteProperty(property, value, arrayIndex, priority)` (with
     `direct=False`), including what `Property.WriteProperty` of presentValue and
     the MinOnOff monitor do underneath.  Returns the state reached and the
@@ -127,44 +147,32 @@ def wp {V} [DecidableEq V] (cfg : Cfg V) :
     Nat → St V → PropId → Option V → Option Int → Option Int → St V × Option CErr
   | 0, s, _, _, _, _ => (s, some .recursion)
   | fuel + 1, s, prop, value, arrayIndex, priority =>
-    match redirect prop arrayIndex priority with
-    | (.other, _) => (s, some .notModelled)
-    | (.presentValue, _) => (s, some .notModelled)      -- unreachable: redirect never returns it
-    | (.priorityArray, none) =>
-      -- "writing entire priorityArray": passed to Property.WriteProperty of a
-      -- property that is not mutable
-      (s, some .writeAccessDenied)
-    | (.priorityArray, some i) =>
-      if i = 0 then (s, some .writeAccessDenied)
-      else if i < 1 ∨ i > 16 then (s, some .invalidArrayIndex)
+    match target cfg prop value arrayIndex priority with
+    | .error e => (s, some e)
+    | .ok i =>
+      -- the null or the choice is set, the other cleared
+      let s1 : St V := { s with slots := setSlot s.slots i value }
+      -- look for the highest priority value, compare with the current value
+      let w := winner cfg s1.slots
+      if w = s1.present then (s1, none)            -- "no present value change"
       else
-      -- "check the value before anything is changed" (a null needs no check)
-      match checkValue cfg value with
-      | some e => (s, some e)
-      | none =>
-        -- the null or the choice is set, the other cleared
-        let s1 : St V := { s with slots := setSlot s.slots i.toNat value }
-        -- look for the highest priority value, compare with the current value
-        let w := winner cfg s1.slots
-        if w = s1.present then (s1, none)            -- "no present value change"
+        -- Property.WriteProperty(presentValue, w): store, then the monitors
+        let s2 : St V := { s1 with present := w }
+        if cfg.minOnOff = false then (s2, none)
         else
-          -- Property.WriteProperty(presentValue, w): store, then the monitors
-          let s2 : St V := { s1 with present := w }
-          if cfg.minOnOff = false then (s2, none)
+          -- MinOnOffTask.present_value_change(old, new)
+          if s1.present = w then (s2, none)        -- "no state change"
           else
-            -- MinOnOffTask.present_value_change(old, new)
-            if s1.present = w then (s2, none)        -- "no state change"
-            else
-              match holdDelay cfg w with
-              | none => (s2, some .valueError)
-              | some 0 => (s2, none)                 -- "no delay"
-              | some (d + 1) =>
-                -- self.binary_obj.WriteProperty("presentValue", new_value, priority=6)
-                match wp cfg fuel s2 .presentValue (some w) none (some 6) with
-                | (s3, some e) => (s3, some e)
-                | (s3, none) =>
-                  -- self.install_task(delta=task_delay)  (re-installs if scheduled)
-                  ({ s3 with deadline := some (s3.now + 1000000 * (d + 1)) }, none)
+            match holdDelay cfg w with
+            | none => (s2, some .valueError)
+            | some 0 => (s2, none)                 -- "no delay"
+            | some (d + 1) =>
+              -- self.binary_obj.WriteProperty("presentValue", new_value, priority=6)
+              match wp cfg fuel s2 .presentValue (some w) none (some 6) with
+              | (s3, some e) => (s3, some e)
+              | (s3, none) =>
+                -- self.install_task(delta=task_delay)  (re-installs if scheduled)
+                ({ s3 with deadline := some (s3.now + 1000000 * (d + 1)) }, none)
 
 /-- the recursion depth the drivers and theorems use (any value ≥ 2 gives the
     same function: `C17.wp_fuel_irrelevant`) -/
